@@ -111,6 +111,20 @@ Definition spec_sort (cols:frame) (by_:list Z) (ddf:option frame) : option (fram
   | _, _ => None
   end.
 
+(* sort_on in place writes through h5py slice assignment: a never-written (0-row) indexed string
+   column keeps its empty index dataset *)
+Definition spec_sort_on (cols:frame) (keys:list Z) (ddf:option frame) : option (frame * option frame) :=
+  match ddf with
+  | Some _ => spec_sort cols keys ddf
+  | None =>
+    match spec_sort cols keys None with
+    | Some (c', o) =>
+      Some (map (fun p:(Z * field) * (Z * field) =>
+                   if field_len (snd (fst p)) =? 0 then fst p else snd p) (combine cols c'), o)
+    | None => None
+    end
+  end.
+
 (* multiset facts are stated with Permutation / sublist in Props *)
 Inductive sublist {A} : list A -> list A -> Prop :=
 | sub_nil : sublist [] []
